@@ -4,7 +4,7 @@ from vlib import finish, mc_coverage, tlc_mc, trace_lines
 
 def main(ctx):
     tlc_mc(ctx, "WriteProto.tla", "WriteProto_quick.cfg", timeout=900, label="WriteProto.tla: Mutex ExactlyOne NoOrphan LockFreeAtEnd Terminates")
-    n = 20 if ctx.quick else 160
+    n = 48 if ctx.quick else 160
     jobs = []
     for i in range(n):
         seed = ctx.seed * 1000 + i
